@@ -168,6 +168,17 @@ pub fn check_history(plan: &Plan, r: &RunResult) -> Vec<Violation> {
                             });
                         } else {
                             top.entered = Some(*fn_id);
+                            if top.flavor == 2 {
+                                out.push(Violation {
+                                    oracle: "O1",
+                                    task: task as u8,
+                                    method: om,
+                                    message: format!(
+                                        "`{}` is not un-mockable (concrete dependency or entraited trait), yet the partial mock ran function {fn_id} instead of refusing the call",
+                                        m.name
+                                    ),
+                                });
+                            }
                             if top.flavor == 1 {
                                 out.push(Violation {
                                     oracle: "O1",
